@@ -415,6 +415,33 @@ let cmd_zerosize () =
         List.iter (fun mt -> List.iter (fun (_, t) -> chk (ocaml_string_of mt.m_name) t) mt.m_args) m.e_methods) st.s_models;
       Printf.printf "ARRAYS %d\n" !n
 
+(* shipped <treefile> : tree lines "D hexname" ... "E" / "F hexname"; then "INCLUDE hex..", "GLOB comp comp .." (comp = ** or hex), "SCRIPT hex/hex.." *)
+let cmd_shipped () =
+  let ic2 = open_in Sys.argv.(2) in
+  let lines = ref [] in
+  (try while true do lines := input_line ic2 :: !lines done with End_of_file -> ());
+  let lines = ref (List.rev !lines) in
+  let next () = match !lines with l :: r -> lines := r; Some l | [] -> None in
+  let rec kids acc =
+    match next () with
+    | Some l when String.length l > 2 && l.[0] = 'F' -> kids ((coq_string_of (unhex (String.sub l 2 (String.length l - 2))), File) :: acc)
+    | Some l when String.length l > 2 && l.[0] = 'D' ->
+        let name = coq_string_of (unhex (String.sub l 2 (String.length l - 2))) in
+        let sub = kids [] in kids ((name, Dir sub) :: acc)
+    | Some "E" | None -> List.rev acc
+    | Some l -> failwith ("tree: " ^ l) in
+  let root = Dir (kids []) in
+  let include_ = ref [] and globs = ref [] and scripts = ref [] in
+  let path_of s = List.map (fun h -> coq_string_of (unhex h)) (String.split_on_char '/' s) in
+  List.iter (fun l -> match split_ws l with
+    | "INCLUDE" :: hs -> include_ := List.map (fun h -> coq_string_of (unhex h)) hs
+    | "GLOB" :: cs -> globs := !globs @ [List.map (fun c -> if c = "**" then PStarStar else PGlob (coq_string_of (unhex c))) cs]
+    | ["SCRIPT"; p] -> scripts := !scripts @ [path_of p]
+    | _ -> ()) !lines;
+  let show p = String.concat "/" (List.map ocaml_string_of p) in
+  List.iter (fun p -> print_endline ("S " ^ show p)) (shipped root !include_ !globs !scripts);
+  List.iter (fun p -> print_endline ("M " ^ show p)) (missing root !include_ !globs !scripts)
+
 (* frames : one hex stream per line -> "<tail> <type>:<timehex>:<payloadhex|-> ..." *)
 let cmd_frames () =
   iter_lines (fun l ->
@@ -440,6 +467,7 @@ let () =
   | "write" -> cmd_write ()
   | "frames" -> cmd_frames ()
   | "defs" -> cmd_defs ()
+  | "shipped" -> cmd_shipped ()
   | "zerosize" -> cmd_zerosize ()
   | "version" -> cmd_version ()
   | "container" -> cmd_container ()
